@@ -50,7 +50,7 @@ if confirmed:
         for p in [prop] + extra:
             t0 = time.time()
             rc, o = sh("./check %s --tier %s" % (p, tier), cwd="/verif")
-            viol = [l for l in o.split("\n") if l.startswith("VIOLATION") or l.startswith("KNOWN-FINDING")]
+            viol = [l for l in o.split("\n") if l.startswith("VIOLATION")] + [l[:160] for l in o.split("\n") if l.startswith("KNOWN-FINDING")]
             # first failing input(s) reported by this run -> corpus of minimised past failures (runs first in every check)
             fails = []
             for l in viol:
